@@ -118,6 +118,8 @@ struct ThreadStat {
   uint64_t last_obs;     // value observed by last atomic op
 };
 ThreadStat &Stat(int tid);
+// has the virtual thread finished (body returned and all thread-exit destructors have run)?
+bool HasFinished(int tid);
 // happens-before event sets (bit masks over harness-defined marked events)
 uint64_t &HbKnown(int tid);              // K_t
 void HbMark(int tid, int event_bit);     // K_t |= bit
